@@ -946,6 +946,8 @@ func c11Variants() []Variant {
 		{Name: "head-marker-from-write-without-state", File: f, Old: "	logging.Info(\"WriteBlockWithoutState.\", \"Height\", block.NumberU64(), \"Hash\", block.Hash().String())\n", New: "	rawdb.WriteHeadBlockHash(bc.db, block.Hash())\n	logging.Info(\"WriteBlockWithoutState.\", \"Height\", block.NumberU64(), \"Hash\", block.Hash().String())\n", Rule: "C11.H2", Construct: "WriteBlockWithoutState"},
 		{Name: "side-chain-not-longer", File: f, Old: "	if block.NumberU64() <= bc.CurrentBlock().NumberU64() {\n		logging.Error(\"Importing sidechain terminate.\"", New: "	if block.NumberU64() < bc.CurrentBlock().NumberU64() {\n		logging.Error(\"Importing sidechain terminate.\"", Rule: "C11.H4", Construct: "reimport-only-if-longer"},
 		{Name: "ignore-validate-state", File: f, Old: "		err = bc.Validator().ValidateState(block, parent, stateDb, result.Recs, result.UsedGas)\n		if err != nil {", New: "		err = bc.Validator().ValidateState(block, parent, stateDb, result.Recs, result.UsedGas)\n		if err != nil && result == nil {", Rule: "C11.H3", Construct: "write-after-validate-state"},
+		{Name: "write-block-body-first", File: "core/rawdb/accessors_chain.go", Old: "	WriteHeader(db, block.Header())\n	WriteBody(db, block.Hash(), block.NumberU64(), block.Body())\n", New: "	WriteBody(db, block.Hash(), block.NumberU64(), block.Body())\n	WriteHeader(db, block.Header())\n", Rule: "C11.H11", Construct: "WriteBlock"},
+		{Name: "header-index-entry-outside-the-batch", File: "core/headerchain.go", Old: "	rawdb.WriteCanonicalHash(batch, hash, number)\n", New: "	rawdb.WriteCanonicalHash(hc.chainDb, hash, number)\n", Rule: "C11.H12", Construct: "WriteHeader"},
 	}
 }
 
